@@ -111,6 +111,7 @@ static const char rcsid[] = "$Id: proxyd.c,v 1.20 2013-08-28 14:45:58 mschimek E
      4 byte frame number written to <fifo>, so that a test harness owns the capture clock;
    - verif_trace(): one line per daemon action on the fd named by $ZVBI_VERIF_TRACE_FD. */
 #include <stdarg.h>
+#include <sys/socket.h>
 static void verif_trace (const char * fmt, ...);
 static vbi_capture * verif_capture_new (const char * p_dev_name);
 static void verif_trace_state (const char * p_event, int fd);
@@ -2173,6 +2174,14 @@ static void vbi_proxyd_add_connection( int listen_fd, int dev_idx, vbi_bool isLo
          req->dev_idx       = dev_idx;
          req->chn_prio      = DEFAULT_CHN_PRIO;
 
+#ifdef ZVBI_VERIF
+         {  /* a small socket send buffer lets a test harness stall a client with a few frames */
+            const char * p_env = getenv("ZVBI_VERIF_SNDBUF");
+            int sndbuf = (p_env != NULL) ? atoi(p_env) : 0;
+            if (sndbuf > 0)
+               setsockopt(sock_fd, SOL_SOCKET, SO_SNDBUF, &sndbuf, sizeof(sndbuf));
+         }
+#endif
          pthread_mutex_lock(&proxy.clnt_mutex);
 
          /* append request to the end of the chain
